@@ -54,7 +54,7 @@ REQUIRED = ('range_forms_checked', 'range_plus_forms', 'range_interval_forms',
             'engine_showdowns_compared', 'partial_deals_checked',
             'icm_vectors_checked', 'icm_reference_compared',
             'dead_combination_deals', 'rank_order_passes',
-            'convergence_checks')
+            'convergence_checks', 'call_form_variants')
 
 STD = '23456789TJQKA'
 SUITS = 'cdhs'
@@ -315,6 +315,41 @@ def check_equities(res, rng):
         res.violation(f'fully specified deal but the equities depend on '
                       f'the sample count: {results}: {payload}', payload)
         return
+    if rng.random() < 0.2:
+        # the same fully specified deal through the other documented call
+        # forms: hand types as a list / one-shot iterator / generator, an
+        # executor, sample counts that are not round numbers
+        k = rng.choice([2, 3, 101, 137, 250])
+        form = rng.choice(['list', 'iterator', 'generator', 'tuple'])
+        hts_arg = {'list': list(hand_types), 'iterator': iter(hand_types),
+                   'generator': (h for h in hand_types),
+                   'tuple': hand_types}[form]
+        ex = None
+        if rng.random() < 0.5:
+            from concurrent.futures import ThreadPoolExecutor
+            ex = ThreadPoolExecutor(2)
+        try:
+            eq = calculate_equities(
+                [[h] for h in holes], board, hole_n, board_n, Deck[deck],
+                hts_arg, sample_count=k, executor=ex)
+        except Exception as exc:   # noqa: BLE001
+            res.violation(f'calculate_equities(hand types as {form}, '
+                          f'sample_count={k}, executor={ex is not None}) '
+                          f'raised {type(exc).__name__}: {exc} for {payload}',
+                          payload)
+            return
+        finally:
+            if ex is not None:
+                ex.shutdown()
+        res.counters['call_form_variants'] += 1
+        if any(abs(a - b) > 1e-9 for a, b in zip(results[0], eq)):
+            res.violation(
+                f'fully specified deal: calculate_equities(hand types as '
+                f'{form}, sample_count={k}, executor='
+                f'{"ThreadPoolExecutor" if ex is not None else None}) = '
+                f'{eq}, the plain call gives {results[0]}: {payload}',
+                payload)
+            return
     if board and rng.random() < 0.4:
         # ranges padded with DEAD combinations (each uses a board card, so
         # it can never be dealt): the one feasible deal is
